@@ -23,6 +23,8 @@ Proof.
   - inversion E; subst. destruct Hc; discriminate.
 Qed.
 
+Local Opaque CreateDefaultScopes.
+
 (** C12, the stray-pointer part of parse_total for ALL passes: whatever byte strings are loaded, if the parser
     returns (success or its parse error), every []byte in the pool lies inside the image of its table *)
 Theorem parse_slices_inside : forall payloads class t imgs,
